@@ -324,6 +324,21 @@ func randReuse(rng *vlib.Rng) (Plan, []HOp) {
 				lc = lr
 			}
 		}
+		if rng.Chance(20) {
+			// the LOGIN record once more while the session is open (after the first, before the CRED_DISP)
+			first, cd := -1, -1
+			for q, o := range lc {
+				if o.K == g && o.Kind == opRec && first < 0 {
+					first = q
+				}
+				if o.K == g && o.Kind == opCD && cd < 0 {
+					cd = q
+				}
+			}
+			if first >= 0 && cd > first {
+				lc = insertAt(lc, HOp{Kind: opRec, K: g}, first+1+rng.Intn(cd-first))
+			}
+		}
 		if g == gens-1 && rng.Chance(25) {
 			lc = withoutLogin(lc, g) // the last holder of the PID is not an SSH session
 		}
@@ -373,7 +388,7 @@ func randReuse(rng *vlib.Rng) (Plan, []HOp) {
 func checkC16(r *vlib.Run) int {
 	st := newCorrStats()
 	var evals int64
-	var discarded, kept, corrKept, endedPending int64
+	var discarded, kept, corrKept, endedPending, repeatedWaiting int64
 	items := []HOp{}
 	for k := 0; k < 3; k++ {
 		items = append(items, HOp{Kind: opLogin, K: k}, HOp{Kind: opRec, K: k})
@@ -492,6 +507,27 @@ func checkC16(r *vlib.Run) int {
 		for e := rng.Intn(4); e > 0; e-- {
 			cur = insertAt(cur, HOp{Kind: opEv, K: rng.Intn(3), Typ: "USER_CMD"}, rng.Intn(len(cur)+1))
 		}
+		// a waiting login may be delivered a second time before its session shows
+		// up: the waiting entry is then as young as the second delivery
+		for k := 0; k < 3; k++ {
+			li, ri := -1, -1
+			for q, o := range cur {
+				if o.K == k && o.Kind == opLogin && li < 0 {
+					li = q
+				}
+				if o.K == k && o.Kind == opRec && ri < 0 {
+					ri = q
+				}
+			}
+			if li >= 0 && (ri < 0 || li < ri) && rng.Chance(30) {
+				hi := len(cur)
+				if ri >= 0 {
+					hi = ri
+				}
+				cur = insertAt(cur, HOp{Kind: opLogin, K: k}, li+1+rng.Intn(hi-li))
+				atomic.AddInt64(&repeatedWaiting, 1)
+			}
+		}
 		// a pending session may already be over (its credential disposal is
 		// held too) when the cleanup runs: it is kept or dropped by age alone
 		for k := 0; k < 3; k++ {
@@ -536,6 +572,7 @@ func checkC16(r *vlib.Run) int {
 	r.Set("exhaustive_max_arrivals", maxLen)
 	r.Set("random_cutoff_histories", nRand)
 	r.Set("random_histories_sessions_with_credential_disposal_placed", int(endedPending))
+	r.Set("random_histories_waiting_logins_delivered_twice", int(repeatedWaiting))
 	r.Set("pending_halves_predicted_discarded", int(discarded))
 	r.Set("pending_halves_predicted_kept", int(kept))
 	r.Set("correlated_sessions_crossing_a_cleanup", int(corrKept))
